@@ -19,7 +19,7 @@ ASSUMPTIONS = ['property models are monotone in T on 250-500 K for the drawn com
                'mixed temperature is required to land in 200-600 K, otherwise the case is counted as rejected (outside model range)',
                'tolerances from Mixture.T_tol = 1e-6 K (DESIGN.md section 4)']
 REQUIRED_CELLS = {'quick': ['mix:recv=S', 'mix:recv=M', 'mix:multi-inlet', 'mix:Q!=0', 'mix:heat-object', 'mix:self',
-                            'set:H', 'set:h', 'set:S', 'set:Hnet', 'set:multi', 'sep:multi', 'sep:other-at-mixture-T', 'mix:empty-inlet-lowest-P', 'mixvle:Q!=0', 'set:PR', 'set:T*=Tref', 'mix:all-inlets-at-Tref'], 'thorough': []}
+                            'set:H', 'set:h', 'set:S', 'set:Hnet', 'set:multi', 'sep:multi', 'sep:other-at-mixture-T', 'mix:empty-inlet-lowest-P', 'mixvle:Q!=0', 'set:PR', 'set:T*=Tref', 'mix:all-inlets-at-Tref', 'set:composition-edit-before-same'], 'thorough': []}
 
 PKGS = ['A', 'B', 'C', 'D']
 T_TOL = 1e-6
@@ -321,7 +321,16 @@ def prop_setter(ch, ctx):
         ctx.fail(f'setter.{X}|{region}|readback', f'assigned {Xstar!r}, read back {back!r}; T={s.T!r} T*={Tstar!r} T0={T0!r}')
     if abs(s.T - Tstar) > T_tol_rt:
         ctx.fail(f'setter.{X}|{region}|T-mismatch', f'T={s.T!r} but the assigned value is that of T*={Tstar!r} (T0={T0!r})')
-    # assigning the value it already has leaves T unchanged
+    # assigning the value it already has leaves T unchanged - also right after an in-place composition change at the
+    # same T, P with another derived property read in between (the value read must belong to the current flows)
+    if ch.bool('edit.before.same'):
+        data = s.imol.data
+        rows = data.rows if hasattr(data, 'rows') else [data]
+        for r in rows:
+            for k in list(r.dct):
+                r.dct[k] = r.dct[k] * (2.0 if k % 2 == 0 else 0.5)
+        _ = s.C
+        ctx.cell('set:composition-edit-before-same')
     T1 = s.T
     cur = getattr(s, X)
     ctx.call('setter.same.' + X, setattr, s, X, cur, region=region)
